@@ -37,6 +37,9 @@ Definition empty_datums_hashed : bool := false.
    (get_used_plutus_lang_versions; the code as found); `false` = only from the witnesses it hashes (after
    fixes/C09-stale-input-language.patch: used_langs.retain(..)) *)
 Definition stale_langs_counted : bool := false.
+(* `true` = a calc_script_data_hash that finds nothing to hash removes a hash that an earlier calc_script_data_hash stored (after
+   fixes/C09-noop-calc-keeps-hash.patch); `false` = it leaves every stored hash in place (the code as found) *)
+Definition calc_clears_own_hash : bool := true.
 
 (* ------------------------------------------------------------------ Plutus data, lists *)
 
@@ -383,6 +386,7 @@ Record builder := mk_builder {
   b_collateral_len : N;                (* number of collateral inputs *)
   b_extra_datums : option (list pdata);
   b_script_data_hash : option bytes;
+  b_hash_calculated : bool;            (* script_data_hash_is_calculated: the hash was stored by calc_script_data_hash *)
   b_aux : option aux_data }.
 Definition b_inputs (b : builder) := ss_witnesses (b_in b).
 Definition b_collateral (b : builder) := ss_witnesses (b_col b).
@@ -393,7 +397,7 @@ Definition b_votes (b : builder) := ss_witnesses (b_vo b).
 Definition b_proposals (b : builder) := ss_witnesses (b_pr b).
 
 Definition builder_new : builder :=
-  mk_builder sub_empty sub_empty sub_empty sub_empty sub_empty sub_empty sub_empty 0 None None None.
+  mk_builder sub_empty sub_empty sub_empty sub_empty sub_empty sub_empty sub_empty 0 None None false None.
 
 Inductive sub := SubInputs | SubCollateral | SubMint | SubCerts | SubWithdrawals | SubVotes | SubProposals.
 
@@ -438,11 +442,14 @@ Fixpoint retain_or_fail (cm : costmdls) (ls : list lang) (acc : costmdls) : resu
   | l :: t => match cm_get cm l with Some c => retain_or_fail cm t (cm_insert acc l c) | None => Err end
   end.
 
-Definition set_hash (b : builder) (h : option bytes) : builder :=
-  mk_builder (b_in b) (b_col b) (b_mi b) (b_ce b) (b_wd b) (b_vo b) (b_pr b) (b_collateral_len b) (b_extra_datums b) h (b_aux b).
+(* the stored hash and where it came from *)
+Definition set_hash_flag (b : builder) (h : option bytes) (calculated : bool) : builder :=
+  mk_builder (b_in b) (b_col b) (b_mi b) (b_ce b) (b_wd b) (b_vo b) (b_pr b) (b_collateral_len b) (b_extra_datums b) h calculated (b_aux b).
+(* set_script_data_hash / remove_script_data_hash: a hash given (or taken away) by the caller *)
+Definition set_hash (b : builder) (h : option bytes) : builder := set_hash_flag b h false.
 Definition set_aux (b : builder) (a : option aux_data) : builder :=
   mk_builder (b_in b) (b_col b) (b_mi b) (b_ce b) (b_wd b) (b_vo b) (b_pr b) (b_collateral_len b) (b_extra_datums b)
-             (b_script_data_hash b) a.
+             (b_script_data_hash b) (b_hash_calculated b) a.
 
 (* the preimage calc_script_data_hash hashes (None = nothing to hash: the stored hash is left as it is) *)
 Definition calc_preimage_gen (counted : bool) (b : builder) (cm : costmdls) : result (option bytes) :=
@@ -454,12 +461,13 @@ Definition calc_preimage_gen (counted : bool) (b : builder) (cm : costmdls) : re
   else Ok None.
 Definition calc_preimage := calc_preimage_gen stale_langs_counted.
 
-Definition calc_script_data_hash (b : builder) (cm : costmdls) : result builder :=
+Definition calc_script_data_hash_gen (clears : bool) (b : builder) (cm : costmdls) : result builder :=
   let* p := calc_preimage b cm in
   match p with
-  | Some pre => Ok (set_hash b (Some (H pre)))
-  | None => Ok b
+  | Some pre => Ok (set_hash_flag b (Some (H pre)) true)
+  | None => if clears && b_hash_calculated b then Ok (set_hash_flag b None false) else Ok b
   end.
+Definition calc_script_data_hash := calc_script_data_hash_gen calc_clears_own_hash.
 
 (* get_witness_set *)
 Definition get_witness_set (b : builder) : witness_set :=
@@ -515,7 +523,7 @@ Inductive op :=
 | OpSetAuxDecoded (w : aux_wire).          (* set_auxiliary_data(AuxiliaryData::from_bytes(enc_wire w)); nothing when decoding fails *)
 
 Definition set_sub (b : builder) (k : sub) (ss : sub_state) (n : N) : builder :=
-  let r := fun i c m e w v p cl => mk_builder i c m e w v p cl (b_extra_datums b) (b_script_data_hash b) (b_aux b) in
+  let r := fun i c m e w v p cl => mk_builder i c m e w v p cl (b_extra_datums b) (b_script_data_hash b) (b_hash_calculated b) (b_aux b) in
   match k with
   | SubInputs => r ss (b_col b) (b_mi b) (b_ce b) (b_wd b) (b_vo b) (b_pr b) (b_collateral_len b)
   | SubCollateral => r (b_in b) ss (b_mi b) (b_ce b) (b_wd b) (b_vo b) (b_pr b) n
@@ -529,7 +537,7 @@ Definition set_sub (b : builder) (k : sub) (ss : sub_state) (n : N) : builder :=
 Definition add_extra_witness_datum (b : builder) (d : pdata) : builder :=
   mk_builder (b_in b) (b_col b) (b_mi b) (b_ce b) (b_wd b) (b_vo b) (b_pr b) (b_collateral_len b)
              (Some (match b_extra_datums b with Some l => l ++ [d] | None => [d] end))
-             (b_script_data_hash b) (b_aux b).
+             (b_script_data_hash b) (b_hash_calculated b) (b_aux b).
 
 (* what an operation does to the auxiliary data held by the builder *)
 Definition aux_step (cur : option aux_data) (o : op) : option aux_data :=
